@@ -10,6 +10,462 @@ HANDLER = ("        except (BadHashError, NotEnoughHashesError, IndexError):\n  
 NAME_HASH = "    def _name_hash(self, i):\n"
 VERIFIER_NEEDED = "        maybe_needed = set(self.needed_for(self.first_leaf_num + leafnum))\n"
 
+
+# ---- added after seeded changes C02-I / C35-I (refactors with a slip): set_hashes as overlay-and-commit, and with the
+# fill / walk moved into helper methods.  The two faithful refactors are spelled out, the slips are edits of them.
+SET_HASHES_REGION = (
+    "        remove_upon_failure = set() # we'll remove these if the check fails\n"
+    '\n'
+    '        # visualize this method in the following way:\n'
+    '        #  A: start with the empty or partially-populated tree as shown in\n'
+    '        #     the HashTree docstring\n'
+    '        #  B: add all of our input hashes to the tree, filling in some of the\n'
+    "        #     holes. Don't overwrite anything, but new values must equal the\n"
+    '        #     existing ones. Mark everything that was added with a red dot\n'
+    '        #     (meaning "not yet validated")\n'
+    '        #  C: start with the lowest/deepest level. Pick any red-dotted node,\n'
+    '        #     hash it with its sibling to compute the parent hash. Add the\n'
+    '        #     parent to the tree just like in step B (if the parent already\n'
+    '        #     exists, the values must be equal; if not, add our computed\n'
+    '        #     value with a red dot). If we have no sibling, throw\n'
+    "        #     NotEnoughHashesError, since we won't be able to validate this\n"
+    '        #     node. Remove the red dot. If there was a red dot on our\n'
+    '        #     sibling, remove it too.\n'
+    '        #  D: finish all red-dotted nodes in one level before moving up to\n'
+    '        #     the next.\n'
+    '        #  E: if we hit NotEnoughHashesError or BadHashError before getting\n'
+    "        #     to the root, discard every hash we've added.\n"
+    '\n'
+    '        try:\n'
+    '            num_levels = depth_of(len(self)-1)\n'
+    '            # hashes_to_check[level] is set(index). This holds the "red dots"\n'
+    '            # described above\n'
+    '            hashes_to_check = [set() for level in range(num_levels+1)]\n'
+    '\n'
+    '            # first we provisionally add all hashes to the tree, comparing\n'
+    '            # any duplicates\n'
+    '            for i,h in new_hashes.items():\n'
+    '                if self[i]:\n'
+    '                    if self[i] != h:\n'
+    '                        raise BadHashError("new hash %r does not match "\n'
+    '                                           "existing hash %r at %r"\n'
+    '                                           % (base32.b2a(h),\n'
+    '                                              base32.b2a(self[i]),\n'
+    '                                              self._name_hash(i)))\n'
+    '                else:\n'
+    '                    level = depth_of(i)\n'
+    '                    hashes_to_check[level].add(i)\n'
+    '                    self[i] = h\n'
+    '                    remove_upon_failure.add(i)\n'
+    '\n'
+    '            for level in reversed(range(len(hashes_to_check))):\n'
+    '                this_level = hashes_to_check[level]\n'
+    '                while this_level:\n'
+    '                    i = this_level.pop()\n'
+    '                    if i == 0:\n'
+    "                        # The root has no sibling. How lonely. You can't\n"
+    '                        # really *check* the root; you either accept it\n'
+    '                        # because the caller told you what it is by including\n'
+    '                        # it in hashes, or you accept it because you\n'
+    '                        # calculated it from its two children. You probably\n'
+    '                        # want to set the root (from a trusted source) before\n'
+    '                        # adding any children from an untrusted source.\n'
+    '                        continue\n'
+    '                    siblingnum = self.sibling(i)\n'
+    '                    if self[siblingnum] is None:\n'
+    "                        # without a sibling, we can't compute a parent, and\n"
+    "                        # we can't verify this node\n"
+    '                        raise NotEnoughHashesError("unable to validate [%d]"%i)\n'
+    '                    parentnum = self.parent(i)\n'
+    '                    # make sure we know right from left\n'
+    '                    leftnum, rightnum = sorted([i, siblingnum])\n'
+    '                    new_parent_hash = pair_hash(self[leftnum], self[rightnum])\n'
+    '                    if self[parentnum]:\n'
+    '                        if self[parentnum] != new_parent_hash:\n'
+    '                            raise BadHashError("h([%d]+[%d]) != h[%d]" %\n'
+    '                                               (leftnum, rightnum, parentnum))\n'
+    '                    else:\n'
+    '                        self[parentnum] = new_parent_hash\n'
+    '                        remove_upon_failure.add(parentnum)\n'
+    '                        parent_level = depth_of(parentnum)\n'
+    '                        assert parent_level == level-1\n'
+    '                        hashes_to_check[parent_level].add(parentnum)\n'
+    '\n'
+    '                    # our sibling is now as valid as this node\n'
+    '                    this_level.discard(siblingnum)\n'
+    "            # we're done!\n"
+    '\n'
+    '        except (BadHashError, NotEnoughHashesError, IndexError):\n'
+    '            for i in remove_upon_failure:\n'
+    '                self[i] = None\n'
+    '            raise\n'
+)
+OV_OK = (
+    '        # visualize this method in the following way:\n'
+    '        #  A: start with the empty or partially-populated tree as shown in\n'
+    '        #     the HashTree docstring\n'
+    '        #  B: lay a transparent sheet over the tree and write all of our\n'
+    '        #     input hashes on it, each one over its own node. Hashes that I\n'
+    '        #     already hold with the same value are not written again. Mark\n'
+    '        #     everything on the sheet with a red dot (meaning "not yet\n'
+    '        #     validated"). Looking down through the sheet you see the new\n'
+    '        #     value where there is one, and my own value everywhere else.\n'
+    '        #  C: start with the lowest/deepest level. Pick any red-dotted node,\n'
+    '        #     hash it with its sibling to compute the parent hash. If the\n'
+    '        #     parent is visible, the values must be equal; if not, write our\n'
+    '        #     computed value on the sheet with a red dot. If we have no\n'
+    "        #     sibling, throw NotEnoughHashesError, since we won't be able to\n"
+    '        #     validate this node. Remove the red dot. If there was a red dot\n'
+    '        #     on our sibling, remove it too.\n'
+    '        #  D: finish all red-dotted nodes in one level before moving up to\n'
+    '        #     the next.\n'
+    '        #  E: when no red dots are left, copy the sheet into the tree. If we\n'
+    '        #     hit NotEnoughHashesError or BadHashError before that, just\n'
+    '        #     throw the sheet away: the tree itself was never touched, so\n'
+    '        #     there is nothing to undo.\n'
+    '\n'
+    '        pending = {} # the sheet: maps hash index to not-yet-committed hash\n'
+    '\n'
+    '        def visible(i):\n'
+    '            if i in pending:\n'
+    '                return pending[i]\n'
+    '            return self[i]\n'
+    '\n'
+    '        num_levels = depth_of(len(self)-1)\n'
+    '        # hashes_to_check[level] is set(index). This holds the "red dots"\n'
+    '        # described above\n'
+    '        hashes_to_check = [set() for level in range(num_levels+1)]\n'
+    '\n'
+    '        # first we put all hashes that tell us something new on the sheet.\n'
+    '        # Indexing self[i] also rejects (IndexError) any hash index that does\n'
+    '        # not fit into this tree.\n'
+    '        for i,h in new_hashes.items():\n'
+    '            if self[i]:\n'
+    '                if self[i] != h:\n'
+    '                    raise BadHashError("new hash %r does not match "\n'
+    '                                       "existing hash %r at %r"\n'
+    '                                       % (base32.b2a(h),\n'
+    '                                          base32.b2a(self[i]),\n'
+    '                                          self._name_hash(i)))\n'
+    '                continue\n'
+    '            pending[i] = h\n'
+    '            hashes_to_check[depth_of(i)].add(i)\n'
+    '\n'
+    "        # The root has no sibling. How lonely. You can't really *check* the\n"
+    '        # root; you either accept it because the caller told you what it is\n'
+    '        # by including it in hashes, or you accept it because you calculated\n'
+    '        # it from its two children. You probably want to set the root (from a\n'
+    '        # trusted source) before adding any children from an untrusted\n'
+    '        # source. So level 0 is left out here.\n'
+    '        for level in range(num_levels, 0, -1):\n'
+    '            this_level = hashes_to_check[level]\n'
+    '            while this_level:\n'
+    '                i = this_level.pop()\n'
+    '                siblingnum = self.sibling(i)\n'
+    '                if visible(siblingnum) is None:\n'
+    "                    # without a sibling, we can't compute a parent, and we\n"
+    "                    # can't verify this node\n"
+    '                    raise NotEnoughHashesError("unable to validate [%d]"%i)\n'
+    '                parentnum = self.parent(i)\n'
+    '                # make sure we know right from left\n'
+    '                leftnum, rightnum = sorted([i, siblingnum])\n'
+    '                new_parent_hash = pair_hash(visible(leftnum),\n'
+    '                                            visible(rightnum))\n'
+    '                if visible(parentnum):\n'
+    '                    if visible(parentnum) != new_parent_hash:\n'
+    '                        raise BadHashError("h([%d]+[%d]) != h[%d] at %s" %\n'
+    '                                           (leftnum, rightnum, parentnum,\n'
+    '                                            self._name_hash(parentnum)))\n'
+    '                else:\n'
+    '                    pending[parentnum] = new_parent_hash\n'
+    '                    parent_level = depth_of(parentnum)\n'
+    '                    assert parent_level == level-1\n'
+    '                    hashes_to_check[parent_level].add(parentnum)\n'
+    '\n'
+    '                # our sibling is now as valid as this node\n'
+    '                this_level.discard(siblingnum)\n'
+    '\n'
+    "        # we're done! Everything on the sheet chains up to a hash that I\n"
+    '        # already trusted, so it can go into the tree.\n'
+    '        for i,h in pending.items():\n'
+    '            self[i] = h\n'
+)
+SET_HASHES_TRY = (
+    '            # first we provisionally add all hashes to the tree, comparing\n'
+    '            # any duplicates\n'
+    '            for i,h in new_hashes.items():\n'
+    '                if self[i]:\n'
+    '                    if self[i] != h:\n'
+    '                        raise BadHashError("new hash %r does not match "\n'
+    '                                           "existing hash %r at %r"\n'
+    '                                           % (base32.b2a(h),\n'
+    '                                              base32.b2a(self[i]),\n'
+    '                                              self._name_hash(i)))\n'
+    '                else:\n'
+    '                    level = depth_of(i)\n'
+    '                    hashes_to_check[level].add(i)\n'
+    '                    self[i] = h\n'
+    '                    remove_upon_failure.add(i)\n'
+    '\n'
+    '            for level in reversed(range(len(hashes_to_check))):\n'
+    '                this_level = hashes_to_check[level]\n'
+    '                while this_level:\n'
+    '                    i = this_level.pop()\n'
+    '                    if i == 0:\n'
+    "                        # The root has no sibling. How lonely. You can't\n"
+    '                        # really *check* the root; you either accept it\n'
+    '                        # because the caller told you what it is by including\n'
+    '                        # it in hashes, or you accept it because you\n'
+    '                        # calculated it from its two children. You probably\n'
+    '                        # want to set the root (from a trusted source) before\n'
+    '                        # adding any children from an untrusted source.\n'
+    '                        continue\n'
+    '                    siblingnum = self.sibling(i)\n'
+    '                    if self[siblingnum] is None:\n'
+    "                        # without a sibling, we can't compute a parent, and\n"
+    "                        # we can't verify this node\n"
+    '                        raise NotEnoughHashesError("unable to validate [%d]"%i)\n'
+    '                    parentnum = self.parent(i)\n'
+    '                    # make sure we know right from left\n'
+    '                    leftnum, rightnum = sorted([i, siblingnum])\n'
+    '                    new_parent_hash = pair_hash(self[leftnum], self[rightnum])\n'
+    '                    if self[parentnum]:\n'
+    '                        if self[parentnum] != new_parent_hash:\n'
+    '                            raise BadHashError("h([%d]+[%d]) != h[%d]" %\n'
+    '                                               (leftnum, rightnum, parentnum))\n'
+    '                    else:\n'
+    '                        self[parentnum] = new_parent_hash\n'
+    '                        remove_upon_failure.add(parentnum)\n'
+    '                        parent_level = depth_of(parentnum)\n'
+    '                        assert parent_level == level-1\n'
+    '                        hashes_to_check[parent_level].add(parentnum)\n'
+    '\n'
+    '                    # our sibling is now as valid as this node\n'
+    '                    this_level.discard(siblingnum)\n'
+    "            # we're done!\n"
+    '\n'
+    '        except (BadHashError, NotEnoughHashesError, IndexError):\n'
+    '            for i in remove_upon_failure:\n'
+    '                self[i] = None\n'
+    '            raise\n'
+)
+HP_OK = (
+    '            self._add_pending(new_hashes, hashes_to_check, remove_upon_failure)\n'
+    '            self._check_pending(hashes_to_check, remove_upon_failure)\n'
+    '        except (BadHashError, NotEnoughHashesError, IndexError):\n'
+    '            for i in remove_upon_failure:\n'
+    '                self[i] = None\n'
+    '            raise\n'
+    '\n'
+    '    def _add_pending(self, new_hashes, hashes_to_check, added):\n'
+    '        # first we provisionally add all hashes to the tree, comparing\n'
+    '        # any duplicates\n'
+    '        for i,h in new_hashes.items():\n'
+    '            if self[i]:\n'
+    '                if self[i] != h:\n'
+    '                    raise BadHashError("new hash %r does not match "\n'
+    '                                       "existing hash %r at %r"\n'
+    '                                       % (base32.b2a(h),\n'
+    '                                          base32.b2a(self[i]),\n'
+    '                                          self._name_hash(i)))\n'
+    '            else:\n'
+    '                level = depth_of(i)\n'
+    '                hashes_to_check[level].add(i)\n'
+    '                self[i] = h\n'
+    '                added.add(i)\n'
+    '\n'
+    '\n'
+    '    def _check_pending(self, hashes_to_check, added):\n'
+    '        for level in reversed(range(len(hashes_to_check))):\n'
+    '            this_level = hashes_to_check[level]\n'
+    '            while this_level:\n'
+    '                i = this_level.pop()\n'
+    '                if i == 0:\n'
+    "                    # The root has no sibling. How lonely. You can't\n"
+    '                    # really *check* the root; you either accept it\n'
+    '                    # because the caller told you what it is by including\n'
+    '                    # it in hashes, or you accept it because you\n'
+    '                    # calculated it from its two children. You probably\n'
+    '                    # want to set the root (from a trusted source) before\n'
+    '                    # adding any children from an untrusted source.\n'
+    '                    continue\n'
+    '                siblingnum = self.sibling(i)\n'
+    '                if self[siblingnum] is None:\n'
+    "                    # without a sibling, we can't compute a parent, and\n"
+    "                    # we can't verify this node\n"
+    '                    raise NotEnoughHashesError("unable to validate [%d]"%i)\n'
+    '                parentnum = self.parent(i)\n'
+    '                # make sure we know right from left\n'
+    '                leftnum, rightnum = sorted([i, siblingnum])\n'
+    '                new_parent_hash = pair_hash(self[leftnum], self[rightnum])\n'
+    '                if self[parentnum]:\n'
+    '                    if self[parentnum] != new_parent_hash:\n'
+    '                        raise BadHashError("h([%d]+[%d]) != h[%d]" %\n'
+    '                                           (leftnum, rightnum, parentnum))\n'
+    '                else:\n'
+    '                    self[parentnum] = new_parent_hash\n'
+    '                    added.add(parentnum)\n'
+    '                    parent_level = depth_of(parentnum)\n'
+    '                    assert parent_level == level-1\n'
+    '                    hashes_to_check[parent_level].add(parentnum)\n'
+    '\n'
+    '                # our sibling is now as valid as this node\n'
+    '                this_level.discard(siblingnum)\n'
+    "        # we're done!\n"
+    '\n'
+)
+
+
+def _sub(s, old, new):
+    assert s.count(old) == 1, old
+    return s.replace(old, new)
+
+
+OV_CONFLICT = (
+    '            if self[i]:\n'
+    '                if self[i] != h:\n'
+    '                    raise BadHashError("new hash %r does not match "\n'
+    '                                       "existing hash %r at %r"\n'
+    '                                       % (base32.b2a(h),\n'
+    '                                          base32.b2a(self[i]),\n'
+    '                                          self._name_hash(i)))\n'
+    '                continue\n')
+OV_COMMIT = "        for i,h in pending.items():\n            self[i] = h\n"
+OV_VIEW_DEF = "        def visible(i):\n            if i in pending:\n                return pending[i]\n            return self[i]\n\n"
+# the seeded slip: an offered hash that differs from the one held is left to the parent check, which the root does not have
+OV_SLIP = _sub(OV_OK, OV_CONFLICT, "            if self[i] == h:\n                continue\n")
+# same effect, other edit: only non-root nodes are compared
+OV_ROOT_EXEMPT = _sub(OV_OK, "            if self[i]:\n                if self[i] != h:\n", "            if self[i]:\n                if i != 0 and self[i] != h:\n")
+OV_COMMIT_EARLY = _sub(OV_OK, OV_COMMIT, OV_COMMIT + "        if self[0] is None:\n            raise NotEnoughHashesError(\"the root hash is still unknown\")\n")
+OV_COMMIT_BEFORE_WALK = _sub(_sub(OV_OK, OV_COMMIT, ""), "        # The root has no sibling. How lonely. You can't really *check* the\n",
+                             OV_COMMIT + "        # The root has no sibling. How lonely. You can't really *check* the\n")
+OV_HELD_TABLE = _sub(OV_OK, "        for i,h in new_hashes.items():\n            if self[i]:\n                if self[i] != h:\n",
+                     "        held = dict(enumerate(self))\n        for i,h in new_hashes.items():\n            if held.get(i):\n                if held[i] != h:\n")
+OV_SIBLING_DIRECT = _sub(OV_OK, "                if visible(siblingnum) is None:\n", "                if self[siblingnum] is None:\n")
+OV_VIEW_GET = _sub(OV_OK, OV_VIEW_DEF, "        def visible(i):\n            return pending.get(i, self[i])\n\n")
+OV_VIEW_IFEXP = _sub(OV_OK, OV_VIEW_DEF, "        visible = None\n").replace("visible(siblingnum)", "(pending[siblingnum] if siblingnum in pending else self[siblingnum])") \
+    .replace("visible(leftnum)", "pending.get(leftnum, self[leftnum])").replace("visible(rightnum)", "pending.get(rightnum, self[rightnum])") \
+    .replace("visible(parentnum)", "(self[parentnum] if parentnum not in pending else pending[parentnum])")
+OV_COMMIT_BY_KEY = _sub(OV_OK, OV_COMMIT, "        for i in sorted(pending):\n            self[i] = pending[i]\n")
+HP_CALL = "            self._add_pending(new_hashes, hashes_to_check, remove_upon_failure)\n"
+# the seeded slip: the helper collects what it stored and hands it back at the end - nothing is journaled when it raises half-way
+HP_SLIP = _sub(_sub(_sub(HP_OK, HP_CALL, "            remove_upon_failure.update(self._add_pending(new_hashes, hashes_to_check))\n"),
+                    "    def _add_pending(self, new_hashes, hashes_to_check, added):\n",
+                    "    def _add_pending(self, new_hashes, hashes_to_check):\n        added = set()\n"),
+               "                added.add(i)\n\n\n    def _check_pending(", "                added.add(i)\n        return added\n\n    def _check_pending(")
+HP_PARENT_UNJOURNALED = _sub(HP_OK, "                    added.add(parentnum)\n", "")
+HP_KEYWORD_CALL = _sub(HP_OK, HP_CALL, "            self._add_pending(new_hashes, added=remove_upon_failure, hashes_to_check=hashes_to_check)\n")
+
+# the helper split as in seeded C35-I (work lists built inside _check_pending from the journal), done faithfully
+HP2_OK = (
+    "        remove_upon_failure = set() # we'll remove these if the check fails\n"
+    '\n'
+    '        # visualize this method in the following way:\n'
+    '        #  A: start with the empty or partially-populated tree as shown in\n'
+    '        #     the HashTree docstring\n'
+    '        #  B: add all of our input hashes to the tree, filling in some of the\n'
+    "        #     holes. Don't overwrite anything, but new values must equal the\n"
+    '        #     existing ones. Mark everything that was added with a red dot\n'
+    '        #     (meaning "not yet validated")\n'
+    '        #  C: start with the lowest/deepest level. Pick any red-dotted node,\n'
+    '        #     hash it with its sibling to compute the parent hash. Add the\n'
+    '        #     parent to the tree just like in step B (if the parent already\n'
+    '        #     exists, the values must be equal; if not, add our computed\n'
+    '        #     value with a red dot). If we have no sibling, throw\n'
+    "        #     NotEnoughHashesError, since we won't be able to validate this\n"
+    '        #     node. Remove the red dot. If there was a red dot on our\n'
+    '        #     sibling, remove it too.\n'
+    '        #  D: finish all red-dotted nodes in one level before moving up to\n'
+    '        #     the next.\n'
+    '        #  E: if we hit NotEnoughHashesError or BadHashError before getting\n'
+    "        #     to the root, discard every hash we've added.\n"
+    '\n'
+    '        try:\n'
+    '            # step B: provisionally add all hashes to the tree, comparing\n'
+    '            # any duplicates\n'
+    '            self._add_pending(new_hashes, remove_upon_failure)\n'
+    '            # steps C+D: walk the red dots up towards the root\n'
+    '            self._check_pending(remove_upon_failure)\n'
+    "            # we're done!\n"
+    '\n'
+    '        except (BadHashError, NotEnoughHashesError, IndexError):\n'
+    '            # step E\n'
+    '            for i in remove_upon_failure:\n'
+    '                self[i] = None\n'
+    '            raise\n'
+    '\n'
+    '    def _add_pending(self, new_hashes, pending):\n'
+    '        """Provisionally store every hash in new_hashes that I do not already\n'
+    '        have, and return the set of indices that I filled in (the "red dots"\n'
+    '        of set_hashes(): stored, but not yet validated). A hash that I already\n'
+    '        have must equal the existing one, else I raise BadHashError."""\n'
+    '        for i,h in new_hashes.items():\n'
+    '            if self[i]:\n'
+    '                if self[i] != h:\n'
+    '                    raise BadHashError("new hash %r does not match "\n'
+    '                                       "existing hash %r at %r"\n'
+    '                                       % (base32.b2a(h),\n'
+    '                                          base32.b2a(self[i]),\n'
+    '                                          self._name_hash(i)))\n'
+    '            else:\n'
+    '                self[i] = h\n'
+    '                pending.add(i)\n'
+    '\n'
+    '    def _check_pending(self, pending):\n'
+    '        """Validate the provisionally-stored hashes in \'pending\' against\n'
+    '        their siblings and parents, deepest level first. Any parent hash that\n'
+    "        I have to compute (and store) along the way is added to 'pending', so\n"
+    '        that the caller knows what to forget if I raise BadHashError or\n'
+    '        NotEnoughHashesError."""\n'
+    '        num_levels = depth_of(len(self)-1)\n'
+    '        # hashes_to_check[level] is set(index). This holds the "red dots"\n'
+    '        # described in set_hashes()\n'
+    '        hashes_to_check = [set() for level in range(num_levels+1)]\n'
+    '        for i in pending:\n'
+    '            hashes_to_check[depth_of(i)].add(i)\n'
+    '\n'
+    '        for level in reversed(range(len(hashes_to_check))):\n'
+    '            this_level = hashes_to_check[level]\n'
+    '            while this_level:\n'
+    '                i = this_level.pop()\n'
+    '                if i == 0:\n'
+    "                    # The root has no sibling. How lonely. You can't\n"
+    '                    # really *check* the root; you either accept it\n'
+    '                    # because the caller told you what it is by including\n'
+    '                    # it in hashes, or you accept it because you\n'
+    '                    # calculated it from its two children. You probably\n'
+    '                    # want to set the root (from a trusted source) before\n'
+    '                    # adding any children from an untrusted source.\n'
+    '                    continue\n'
+    '                siblingnum = self.sibling(i)\n'
+    '                if self[siblingnum] is None:\n'
+    "                    # without a sibling, we can't compute a parent, and\n"
+    "                    # we can't verify this node\n"
+    '                    raise NotEnoughHashesError("unable to validate [%d]"%i)\n'
+    '                parentnum = self.parent(i)\n'
+    '                # make sure we know right from left\n'
+    '                leftnum, rightnum = sorted([i, siblingnum])\n'
+    '                new_parent_hash = pair_hash(self[leftnum], self[rightnum])\n'
+    '                if self[parentnum]:\n'
+    '                    if self[parentnum] != new_parent_hash:\n'
+    '                        raise BadHashError("h([%d]+[%d]) != h[%d]" %\n'
+    '                                           (leftnum, rightnum, parentnum))\n'
+    '                else:\n'
+    '                    self[parentnum] = new_parent_hash\n'
+    '                    pending.add(parentnum)\n'
+    '                    parent_level = depth_of(parentnum)\n'
+    '                    assert parent_level == level-1\n'
+    '                    hashes_to_check[parent_level].add(parentnum)\n'
+    '\n'
+    '                # our sibling is now as valid as this node\n'
+    '                this_level.discard(siblingnum)\n'
+)
+HP2_SLIP = _sub(_sub(_sub(_sub(HP2_OK, "self._add_pending(new_hashes, remove_upon_failure)", "remove_upon_failure.update(self._add_pending(new_hashes))"),
+                         "def _add_pending(self, new_hashes, pending):", "def _add_pending(self, new_hashes):"),
+                    "                self[i] = h\n                pending.add(i)\n", "                self[i] = h\n                pending.add(i)\n        return pending\n"),
+               "        for i,h in new_hashes.items():\n            if self[i]:\n", "        pending = set()\n        for i,h in new_hashes.items():\n            if self[i]:\n")
+HP2_NOT_FILED = _sub(HP2_OK, "        for i in pending:\n            hashes_to_check[depth_of(i)].add(i)\n", "")
+
 MUTANTS = [
     M("journal-add-dropped-leafloop", F,
       "                    self[i] = h\n                    remove_upon_failure.add(i)\n",
@@ -207,5 +663,32 @@ MUTANTS = [
       "    def set_leaf_hash(self, leafnum, leafhash):\n        self.set_hashes(leaves={leafnum: leafhash})\n\n" + NAME_HASH, None),
     M("benign-needed-hashes-statistics", F, VERIFIER_NEEDED,
       "        self._asked = getattr(self, \"_asked\", 0) + 1\n" + VERIFIER_NEEDED, None),
+    # ---- seeded C02-I / C35-I: overlay-and-commit, helper methods
+    M("benign-overlay-and-commit", F, SET_HASHES_REGION, OV_OK, None),
+    M("benign-overlay-view-get", F, SET_HASHES_REGION, OV_VIEW_GET, None),
+    M("benign-overlay-view-inline", F, SET_HASHES_REGION, OV_VIEW_IFEXP, None),
+    M("benign-overlay-commit-by-key", F, SET_HASHES_REGION, OV_COMMIT_BY_KEY, None),
+    M("overlay-conflict-left-to-parent-check", F, SET_HASHES_REGION, OV_SLIP, "C35.3"),
+    M("overlay-root-exempt-from-conflict-check", F, SET_HASHES_REGION, OV_ROOT_EXEMPT, "C35.3"),
+    M("overlay-committed-before-last-rejection", F, SET_HASHES_REGION, OV_COMMIT_EARLY, "C35.1"),
+    M("overlay-committed-before-walk", F, SET_HASHES_REGION, OV_COMMIT_BEFORE_WALK, "C35.1"),
+    M("overlay-keys-never-checked-against-tree-size", F, SET_HASHES_REGION, OV_HELD_TABLE, "C35.9"),
+    M("overlay-sibling-read-past-the-overlay", F, SET_HASHES_REGION, OV_SIBLING_DIRECT, "C35.4"),
+    M("benign-helpers-journal-passed-in", F, SET_HASHES_TRY, HP_OK, None),
+    M("benign-helpers-keyword-call", F, SET_HASHES_TRY, HP_KEYWORD_CALL, None),
+    M("helper-returns-journal-entries-at-the-end", F, SET_HASHES_TRY, HP_SLIP, "C35.1"),
+    M("helper-parent-store-unjournaled", F, SET_HASHES_TRY, HP_PARENT_UNJOURNALED, "C35.1"),
+    M("rollback-loop-removed", F, HANDLER, "        except (BadHashError, NotEnoughHashesError, IndexError):\n            raise\n", "C35.1"),
+    M("benign-fill-loop-continue", F, "                                              self._name_hash(i)))\n                else:\n                    level = depth_of(i)\n                    hashes_to_check[level].add(i)\n                    self[i] = h\n                    remove_upon_failure.add(i)\n",
+      "                                              self._name_hash(i)))\n                    continue\n                level = depth_of(i)\n                hashes_to_check[level].add(i)\n                self[i] = h\n                remove_upon_failure.add(i)\n", None),
+    M("benign-helpers-work-lists-from-journal", F, SET_HASHES_REGION, HP2_OK, None),
+    M("helper-fills-journal-from-return-value", F, SET_HASHES_REGION, HP2_SLIP, "C35.1"),
+    M("helper-offered-hashes-never-filed", F, SET_HASHES_REGION, HP2_NOT_FILED, "C35.4"),
+    M("benign-parent-store-renamed-value", F, "                        self[parentnum] = new_parent_hash\n",
+      "                        computed = new_parent_hash\n                        self[parentnum] = computed\n", None),
+    M("benign-parent-hash-hoisted-then-copied", F, "                    new_parent_hash = pair_hash(self[leftnum], self[rightnum])\n",
+      "                    both = pair_hash(self[leftnum], self[rightnum])\n                    new_parent_hash = both\n", None),
+    M("benign-conflict-equal-first", F, "                if self[i]:\n                    if self[i] != h:\n                        raise BadHashError(\"new hash %r does not match \"\n",
+      "                if self[i] == h:\n                    continue\n                if self[i]:\n                    if self[i] != h:\n                        raise BadHashError(\"new hash %r does not match \"\n", None),
     M("vanish-set-hashes", F, "    def set_hashes(self, hashes=None, leaves=None):", "    def set_hashes2(self, hashes=None, leaves=None):", "ANALYSIS-ERROR"),
 ]
